@@ -230,3 +230,9 @@ pub(crate) fn repair_snapshots<S: IndexedFull>(
 
     Ok(())
 }
+
+#[cfg(rustic_core_verif)]
+#[allow(missing_docs, unused_imports, dead_code, clippy::all, clippy::pedantic, clippy::nursery)]
+pub mod verif_hooks {
+    use super::*;
+}
